@@ -4,7 +4,7 @@
     ApplyEvmMsg arithmetic.  This file holds only the exported statements. *)
 From Coq Require Import ZArith List Bool.
 Import ListNotations.
-Require Import Nib.C03.Model Nib.C03.Ref Nib.C03.Spec Nib.C03.Msg Nib.C03.Proofs.
+Require Import Nib.C03.Model Nib.C03.Ref Nib.C03.Spec Nib.C03.Msg Nib.C03.Precompiles Nib.C03.Proofs.
 Local Open Scope Z_scope.
 
 (** One step.  [R k0 f r]: the journaled StateDB [f] over keeper [k0] and the copy-stack reference
@@ -290,3 +290,30 @@ Print Assumptions C03_message_hypotheses_nonvacuous.
 Theorem C03_message_checker_sound : forall c, Pmsgs_b c = true -> Pmsgs c.
 Proof. exact Pmsgs_b_sound. Qed.
 Print Assumptions C03_message_checker_sound.
+
+(** * The standard precompiles 0x01..0x09 (Precompiles.v): InitPrecompiles copies one upstream price
+    table; London rules = vm.PrecompiledContractsBerlin (which table the source names is an obligation
+    over the regenerated facts, Gen/C03Oblig.v). *)
+
+(** The Istanbul and Berlin tables price every standard precompile except MODEXP identically ... *)
+Theorem C03_std_precompiles_istanbul_berlin_differ_only_in_modexp :
+  forall a n, std_gas Istanbul a n = std_gas Berlin a n.
+Proof. exact istanbul_berlin_same_prices. Qed.
+Print Assumptions C03_std_precompiles_istanbul_berlin_differ_only_in_modexp.
+
+(** ... the London price of MODEXP is the EIP-2565 formula with its floor of 200 gas ... *)
+Theorem C03_modexp_london_price :
+  forall blen elen mlen hb,
+  modexp_gas Berlin blen elen mlen hb =
+  Z.max 200 (ceil_div (Z.max blen mlen) 8 * ceil_div (Z.max blen mlen) 8 * Z.max (adj_exp_len elen hb) 1 / 3) /\
+  200 <= modexp_gas Berlin blen elen mlen hb.
+Proof. intros. split; [apply modexp_berlin_formula|apply modexp_berlin_floor]. Qed.
+Print Assumptions C03_modexp_london_price.
+
+(** ... and a map filled from the Istanbul (or Byzantium) table is REFUTED: MODEXP with 32-byte operands
+    costs 13056 gas there, 1360 under London rules. *)
+Theorem C03_istanbul_precompile_table_refuted :
+  modexp_gas Berlin 32 32 32 256 = 1360 /\ modexp_gas Istanbul 32 32 32 256 = 13056 /\
+  modexp_gas Byzantium 32 32 32 256 = 13056.
+Proof. exact istanbul_modexp_pricing_refuted. Qed.
+Print Assumptions C03_istanbul_precompile_table_refuted.
